@@ -180,7 +180,7 @@ static void storage_pass(int sh,int n,int depth_mem,int depth_file,const std::st
 				for(size_t i=0;i<h.size()&&fail.empty();i++){ const SOp &o=A[h[i]]; switch(o.kind){ case 0: S.save(SSID[o.sid],g_now+o.dl,std::string(3,o.data)); M[SSID[o.sid]]=std::make_pair(std::string(3,o.data),g_now+o.dl); break; case 1: check_load(SSID[o.sid],("step "+std::to_string(i+1)).c_str()); break; case 2: S.remove(SSID[o.sid]); M.erase(SSID[o.sid]); break; case 3: g_now+=o.n; break; case 4: if(files) fsobj->gc(); break; } }
 				if(fail.empty()){ check_load(SSID[0],"audit"); if(fail.empty()) check_load(SSID[1],"audit"); if(fail.empty()&&prologue) for(int i=0;i<7&&fail.empty();i++){ char sid[40]; snprintf(sid,sizeof sid,"e%031d",i); check_load(sid,"audit"); } }
 				if(!fail.empty()){ vf::violation(std::string("storage-seq:")+(files?"files":net?"network":"memory")+":"+(fail.find("finds nothing")!=std::string::npos?"session-lost":fail.find("returns a session")!=std::string::npos?"ended-session-readable":"wrong-data"),fail+" ["+cs+"]","\"case\":"+vf::jstr(cs)); }
-				vf::guard("storage_sequences"); vf::C().traces++; vf::C().transitions+=h.size(); if(d==depth&&vf::sample_tick(tickc,30011)) vf::sample("{\"storage\":"+vf::jstr(files?"files":net?"network":"memory")+",\"sequence\":"+vf::jstr(hs)+",\"result\":\"every load agrees with the map model\"}",40); }
+				vf::guard("storage_sequences"); if(net) vf::guard("storage_sequences_network"); vf::C().traces++; vf::C().transitions+=h.size(); if(d==depth&&vf::sample_tick(tickc,30011)) vf::sample("{\"storage\":"+vf::jstr(files?"files":net?"network":"memory")+",\"sequence\":"+vf::jstr(hs)+",\"result\":\"every load agrees with the map model\"}",40); }
 			if(d==depth) return; if(vf::deadline_reached()){ vf::C().exhaustive=false; return; } for(size_t o=0;o<A.size();o++){ if(d==0&&(int)((o+kind+prologue)%n)!=sh) continue; h.push_back((int)o); rec(d+1); h.pop_back(); } };
 		rec(0); }
 	nclient.reset(); for(size_t i=0;i<nsrv.size();i++) nsrv[i]->stop(); nsrv.clear(); }
@@ -202,5 +202,5 @@ int main(int argc,char **argv){ vf::init(argc,argv,"C06","model_checking"); bool
 	vf::parallel(cfgs.size()+1,16,[&](int i){ if(i==(int)cfgs.size()){ damaged_records(); return; } std::string dir=vf::scratch_dir()+"/s"+std::to_string(i); bool two=cfgs[i].label.find("two-browsers")!=std::string::npos; bool tops=cfgs[i].label.find("two-ops")!=std::string::npos; bfs(cfgs[i],tops?(th?4:3):two?(th?5:4):depth,dl,dir); if(tops) return; if(cfgs[i].storage=="memory"&&!two) nodedup(cfgs[i],nd,dir); },th?1500:115);
 	vf::parallel(16,16,[&](int sh){ storage_pass(sh,16,th?6:5,th?4:3,vf::scratch_dir()+"/stseq"+std::to_string(sh)); },th?1500:115);
 	vf::C().extra["bound"]="{\"bfs_max_depth\":"+std::to_string(depth)+",\"nodedup_depth\":"+std::to_string(nd)+",\"configs\":"+std::to_string(cfgs.size())+"}";
-	vf::require_guard("nodedup_sequences"); vf::require_guard("damaged_refused"); vf::require_guard("storage_sequences"); vf::require_guard("storage_loads_hit"); vf::require_guard("storage_loads_miss");
+	vf::require_guard("nodedup_sequences"); vf::require_guard("damaged_refused"); vf::require_guard("storage_sequences"); vf::require_guard("storage_sequences_network"); vf::require_guard("storage_loads_hit"); vf::require_guard("storage_loads_miss");
 	return vf::finish(); }
